@@ -629,7 +629,17 @@ class TokamakEquilibrium(Equilibrium):
                 return [sign * Br / B, sign * Bz / B]
 
             pos = leg  # Starting position
+            # A leg cannot sensibly be longer than a few times the size of the domain
+            max_leg_points = int(
+                10.0 * ((self.Rmax - self.Rmin) + (self.Zmax - self.Zmin)) / step
+            )
             while True:
+                if len(line) > max_leg_points:
+                    raise ValueError(
+                        f"Divertor leg from the X-point at {xpoint} did not reach the "
+                        f"wall after {max_leg_points} steps of {step}m. Check that the "
+                        f"wall encloses the X-point."
+                    )
                 # Integrate a distance "step" along the leg
                 solve_result = solve_ivp(
                     dpos_dl,
@@ -647,6 +657,18 @@ class TokamakEquilibrium(Equilibrium):
                 if intersect is not None:
                     line.append(intersect)  # Put the intersection in the line
                     break
+                if not (
+                    self.Rmin <= newpos[0] <= self.Rmax
+                    and self.Zmin <= newpos[1] <= self.Zmax
+                ):
+                    # psi is not defined outside the grid it was given on, so there is
+                    # no point in following the leg any further. Without this check the
+                    # loop would never end when the wall does not cross the leg.
+                    raise ValueError(
+                        f"Divertor leg from the X-point at {xpoint} left the domain of "
+                        f"the equilibrium data without intersecting the wall. Check "
+                        f"that the wall encloses the X-point."
+                    )
                 pos = newpos
                 line.append(Point2D(*pos))
 
